@@ -2,6 +2,8 @@ import BevySyncModel.Proofs.CompWork
 import BevySyncModel.Proofs.Hier
 import BevySyncModel.Proofs.CompLive
 import BevySyncModel.Generated.Sync
+import BevySyncModel.Generated.Snap
+import BevySyncModel.Proofs.World
 /-! # C05 — parent-child links between synchronized entities converge
 
 The link of one child is replicated by the same mechanism as a component value (debounce token,
@@ -98,6 +100,24 @@ example :
     let h1 := Hier.applyParented Hier.empty 10 1
     let h2 := Hier.applyParented h1 20 1
     h2.par 1 = some 20 ∧ h2.ch 20 = [1] ∧ h2.ch 10 = [] := by decide
+
+/-- (tie) hierarchies in the joining snapshot: parent pairs are listed after every entity, for pairs of tracked entities only,
+and the joiner drops a pair only when it does not know one of the two -/
+theorem C05_snapshot_links_tie :
+    Generated.snapBuildOrder = true ∧ Generated.snapParentsOfKnownPairs = true ∧
+    Generated.snapClientIgnoresUnknownEntity = true := by decide
+
+/-- **hierarchies delivered through the joining snapshot** (`Slice/World.lean`): whatever the archetypes and their order —
+a child may be listed long before its parent — the joiner has every child under the host's parent and no link the host does
+not have; a returning client gets every link the host lists -/
+theorem C05_snapshot_links (w : WorldSnap.World) (hw : WorldSnap.WF w) :
+    ∀ e ∈ WorldSnap.allEnts w, WorldSnap.getParent (WorldSnap.applyAll {} (WorldSnap.snapshot w)) e.uuid = e.parent :=
+  (WorldSnap.snapshot_rebuilds w hw).2.2
+
+theorem C05_snapshot_links_returning (w : WorldSnap.World) (hw : WorldSnap.WF w) (c0 : WorldSnap.Client) :
+    ∀ e ∈ WorldSnap.allEnts w, ∀ p, e.parent = some p →
+      WorldSnap.getParent (WorldSnap.applyAll c0 (WorldSnap.snapshot w)) e.uuid = some p :=
+  (WorldSnap.snapshot_on_returning w hw c0).2.2
 
 end Props
 end BevySync
